@@ -181,6 +181,37 @@ def run(ctx):
         for f in os.listdir(d):
             os.unlink(os.path.join(d, f))
         os.rmdir(d)
+    # built-in policies by name (every server policy, outdated versions included — those print an "update available" notice): the target each
+    # describes passes (exit 0), the same target with its first cipher swapped fails (exit 3)
+    from ssh_audit.builtin_policies import BUILTIN_POLICIES
+    from props.C17 import policy_server
+    names = [n for n, p_ in BUILTIN_POLICIES.items() if p_['server_policy']]
+    latest = {}
+    for n in names:
+        base = n[:n.rindex(' (version ')]
+        latest[base] = max(latest.get(base, 0), int(n[n.rindex(' (version ') + 10:-1]))
+    outdated = [n for n in names if int(n[n.rindex(' (version ') + 10:-1]) < latest[n[:n.rindex(' (version ')]]]
+    chosen = outdated + (names if ctx.tier == 'thorough' else r.sample([n for n in names if n not in outdated], 6))
+    for pname in chosen:
+        for drift in (False, True):
+            for extra in ([], ['-j'], ['-b']) if ctx.tier == 'thorough' or pname in outdated else ([r.choice([[], ['-j'], ['-b'], ['-v']])]):
+                srv = policy_server(BUILTIN_POLICIES[pname])
+                if drift:
+                    pl = dict(BUILTIN_POLICIES[pname])
+                    pl['ciphers'] = ['aes128-cbc'] + list(pl['ciphers'] or [])[1:]
+                    srv = policy_server(pl)
+                code, out = fn.run_main(['-n', '--skip-rate-test', '-P', pname] + extra + ['10.0.0.6'], fn.FakeNet({'10.0.0.6': srv}))
+                cov.add(('builtin-policy', pname, drift, tuple(extra)), True, tags=['policy-run', 'builtin-policy', 'outdated-version' if pname in outdated else 'latest-version'])
+                if '-j' in extra:
+                    try:
+                        verdict = json.loads(out)['passed']
+                    except Exception:
+                        verdict = 'unparseable'
+                else:
+                    verdict = True if 'Passed' in out else (False if 'Failed!' in out else None)
+                want = 3 if drift else 0
+                if code != want or verdict != (not drift):
+                    fail('policy_status', {'policy': pname, 'policy_passes': not drift, 'args': extra}, {'exit': code, 'verdict': verdict, 'stdout': out[:300]}, {'exit': want, 'verdict': not drift})
     model = ctx.driver(lines) if ctx.driver_ok else []
     for line, m, (kind, want, what) in zip(lines, model, expect):
         if kind == 'status':
